@@ -249,11 +249,11 @@ def replay_scalar(rule, L, R, types, w, want):
 
 
 # ------------------------------------------------------------------------------------------------ plan rules
-def encode_pair(lhs, rhs, K, no_ties, wrap=None):
+def encode_pair(lhs, rhs, K, no_ties, wrap=None, allpk=False, engine='mem'):
     """Returns (solver-ready constraints, goal, enc, L, R) for `rows(lhs) == rows(rhs)`."""
-    tabs = tables_for_enc()
-    tabs['0'][0] = ('$0.0', 'I', False)      # t0.c0 is a primary key: NOT NULL
+    tabs = tables_for_enc(allpk)
     enc = Enc(tabs, K=K, contracts=CONTRACTS)
+    enc.engine = engine
     enc.no_ties = no_ties
     if wrap is not None:
         sc = ['scan', '$%d' % wrap, ['list', '$%d.0' % wrap, '$%d.1' % wrap], 'true']
@@ -266,7 +266,7 @@ def encode_pair(lhs, rhs, K, no_ties, wrap=None):
     goal = [bag_eq(L, R)]
     if L.okeys is not None:
         if R.okeys is not None and all(len(a) == len(b) for a, b in zip(L.okeys, R.okeys)):
-            goal.append(seq_eq_vals(L, [[k for k, _ in ks] for ks in L.okeys], R, [[k for k, _ in ks] for ks in R.okeys]))
+            goal.append(sem.ordered_eq(L, R))
         else:
             # rhs carries no sort of its own: its slot sequence must still be ordered by the lhs keys where they are visible
             goal.append(('order', None))
@@ -324,12 +324,19 @@ def plan_rule_tasks(rule, report, K, thorough):
     if not insts:
         report.skip(rule.text(), 'no instance')
         return []
-    items = [{'name': rule.name, 'lhs': rule.lhs, 'expr': show(i.lhs)} for i in insts]
-    out, rc, err = rl('applyrule', {'setup': ddl(), 'config': config, 'items': items}, timeout=300)
-    res = [o for o in out if 'name' in o]
-    if len(res) != len(insts):
-        report.fail_inconclusive('applyrule returned %d results for %d instances of %s: %s' % (len(res), len(insts), rule.name, err[-300:]))
-        return []
+    res = [None] * len(insts)
+    for allpk in (False, True):
+        idx = [k for k, i in enumerate(insts) if bool(i.setup) == allpk]
+        if not idx:
+            continue
+        items = [{'name': rule.name, 'lhs': rule.lhs, 'expr': show(insts[k].lhs)} for k in idx]
+        out, rc, err = rl('applyrule', {'setup': ddl(allpk), 'config': config, 'items': items}, timeout=300)
+        got = [o for o in out if 'name' in o]
+        if len(got) != len(idx):
+            report.fail_inconclusive('applyrule returned %d results for %d instances of %s: %s' % (len(got), len(idx), rule.name, err[-300:]))
+            return []
+        for k, g in zip(idx, got):
+            res[k] = g
     tasks = []
     ntab = len(set(re.findall(r'\$(\d+)\b', show(insts[0].lhs))))
     k = K if ntab <= 2 else min(K, 2)
@@ -341,7 +348,7 @@ def plan_rule_tasks(rule, report, K, thorough):
             report.skip('%s on %s' % (rule.name, show(inst.lhs)), 'real rule application failed: %s' % ('panic' if r.get('panic') else r.get('parse_err')))
             continue
         for rhs_txt in r.get('out', []):
-            tasks.append((RuleLite(rule), inst.lhs, inst.choice, inst.wrap, rhs_txt, k))
+            tasks.append((RuleLite(rule), inst.lhs, inst.choice, inst.wrap, rhs_txt, k, bool(inst.setup), needs_disk))
     if not tasks:
         # every instance was rejected by the real rule's side conditions: our reading of them is wrong, or the
         # instantiation is too narrow -- either way nothing was decided for this rule
@@ -361,13 +368,13 @@ def solve_task(task):
 
 
 def solve_task_at(task, K):
-    rule, lhs, choice, wrap, rhs_txt, _ = task
+    rule, lhs, choice, wrap, rhs_txt, _, allpk, _disk = task
     rhs = parse(rhs_txt)
     res = {'rule': rule.name, 'key': inst_key(rule, choice), 'text': rule.text(), 'lhs': show(lhs), 'rhs': show(rhs), 'K': K,
            'desc': '%s  [%s]' % (rule.name, ' '.join('%s=%s' % kv for kv in sorted(choice.items())))}
     no_ties = bool(ORDER_SENSITIVE.search(show(lhs)) or ORDER_SENSITIVE.search(show(rhs)))
     try:
-        enc, L, R, lreq, rreq, goal = encode_pair(lhs, rhs, K, no_ties, wrap)
+        enc, L, R, lreq, rreq, goal = encode_pair(lhs, rhs, K, no_ties, wrap, allpk, 'disk' if task[7] else 'mem')
     except NotEncodable as ex:
         res.update(verdict='skip', why='not encodable: %s' % ex)
         return res
@@ -404,7 +411,7 @@ def solve_task_at(task, K):
     ufs = uf_tables(m, enc)
     broken_req = [d for d, c in rreq if not is_true(m.eval(c, model_completion=True))]
     rows_l, rows_r = model_rel(m, L), model_rel(m, R)
-    rep = replay_plans(lhs, rhs, db, ufs, wrap, rows_l, rows_r, bool(L.okeys))
+    rep = replay_plans(lhs, rhs, db, ufs, wrap, rows_l, rows_r, bool(L.okeys), allpk)
     res.update(verdict='sat', db=db, ufs={k: {str(a): v for a, v in t.items()} for k, t in ufs.items()}, broken_req=broken_req,
                rows_l=rows_l, rows_r=rows_r, replay=rep)
     return res
@@ -455,8 +462,8 @@ def to_engine_rows(rows):
     return [[None if v is None else (('true' if v else 'false') if isinstance(v, bool) else str(v)) for v in r] for r in rows]
 
 
-def replay_plans(lhs, rhs, db, ufs, wrap, rows_l, rows_r, ordered):
-    setup = ddl() + inserts(db)
+def replay_plans(lhs, rhs, db, ufs, wrap, rows_l, rows_r, ordered, allpk=False):
+    setup = ddl(allpk) + inserts(db)
     if wrap is not None:
         sc = ['scan', '$%d' % wrap, ['list', '$%d.0' % wrap, '$%d.1' % wrap], 'true']
         lhs, rhs = ['proj', ['list', lhs], sc], ['proj', ['list', rhs], sc]
